@@ -8,13 +8,14 @@ from harness.runner import BCheck
 from scenario import bam as BAM, phasing as PH, vcf as V
 
 LEVEL = "exploration"
-LEVEL_TEXT = ("Pipeline property over BAM files: bounded stand-in. Generated diploid scenarios (error-free reads, SNV/MNP/indel variants, several phase sets with random "
+LEVEL_TEXT = ("Deductive part (vcgen/z3, all inputs): length_of_homopolymer returns min(threshold, length of the maximal run of the first base) (contracts/haplotagphase_py.py). "
+              "Pipeline property over BAM files: bounded stand-in. Generated diploid scenarios (error-free reads, SNV/MNP/indel variants, several phase sets with random "
               "haplotype order, no read overlapping two sets) are run through haplotag -> (full or indel-only) unphase -> haplotagphase with default thresholds; every "
               "variant newly phased must carry exactly the genotype order and phase set it had in the tagging VCF, and variants already phased in the haplotagphase "
               "input must come out unchanged. The lemma over the contracts of compute_votes/best_candidate/consensus (all vote mass on one key) is argued in DESIGN.md.")
 LEVEL_NOTE = "Seeded sampling. Trusted: scenario generator, independent decoder."
 TECHNIQUE = "bounded runtime contract on the pipeline run_haplotag -> unphase -> run_haplotagphase over generated BAM/VCF scenarios"
-D_MODULES = []
+D_MODULES = ["contracts.haplotagphase_py"]
 EXPLANATION = LEVEL_TEXT
 TRUSTED_BASE = ["scenario/bam.py", "scenario/phasing.py decoder"]
 ASSUMPTIONS = ["thresholds at their defaults; reads never overlap two phase sets (the statement's proviso)"]
